@@ -42,6 +42,32 @@ PROPS = {
   "rule": "generated trees (nested, 255-byte and non-ASCII names, symlinks to files/dirs/nothing, a directory with hundreds/thousands of entries) x {bulk listing twice, entry-by-entry v1/v2 until past the end with interleaved STATs, STAT + GET_DIR_SIZE of every kind of path}; oracle = the harness's own stat walk of the tree it built",
   "assumptions": _CONN_ASSUME,
  },
+ "C07": {
+  "props_modules": ["Ps3.Props.C07"],
+  "streams": [{"name": "viso", "bad_obs": r"valid=(?!ok)|tree=(?!ok)|PANIC|wf=0"}],
+  "rule": "generated trees (nested dirs, boundary file sizes, empty files, dirs with 30-90 entries, 255-byte/non-ASCII/colliding names, symlinks; thorough: sparse files of 4 GiB-2 KiB .. 9 GiB) x both modes; "
+          "the image is read through the library view and (a) compared byte-exactly (masked) with the Lean model's image, (b) decoded by an independent ISO 9660/Joliet reader and compared with the generated tree in both hierarchies incl. file bytes at structural offsets",
+  "assumptions": ["file content 'Content' (pattern + overlays) tied to the real files by the differential", "TZ=UTC for recording timestamps",
+                  "theorems about a built image are stated for images satisfying WF; WF is evaluated (wfB, proved sound) on the model's image of every explored tree - a proof that build always yields WF is not yet done"],
+ },
+ "C08": {
+  "props_modules": ["Ps3.Props.C08"],
+  "streams": [{"name": "viso", "bad_obs": r"valid=(?!ok)|tree=(?!ok)|PANIC|wf=0"}],
+  "rule": "same runs as C07; the implementation's image is checked by a strict validator written from ECMA-119/Joliet (sizes, descriptors, both-endian fields, record lengths, no straddling, ./.. and child links, L/M path tables, extents inside and disjoint, zero padding); well-formed PARAM.SFO files with any key order/entry count for PS3 mode",
+  "assumptions": ["validator anchored on the third-party image internal/testutil/testdata/testimg.iso", "duplicate identifiers after mapping are not flagged (not demanded by the property)"],
+ },
+ "C09": {
+  "props_modules": ["Ps3.Props.C09"],
+  "streams": [{"name": "viso", "bad_obs": r"PANIC|wf=0"}],
+  "rule": "per generated image 25 (quick) / 60 (thorough) operations over {ReadAt(n,off), Read(n), Seek(off,whence)} with n in {0,1,2,100,2047..2049,4096,65536,70000,100000} and offsets at structural boundaries (file starts/ends/padded ends, directory extents, descriptor area, pad area, end) +-{1,2047,2048,2049} and beyond the end; plus one full sequential read; every (n, error class, bytes) compared with the model",
+  "assumptions": ["WF hypothesis as for C07"],
+ },
+ "C18": {
+  "props_modules": ["Ps3.Props.C18"],
+  "streams": [{"name": "viso", "bad_obs": r"again=(?!same)"}],
+  "rule": "every image of the viso runs is built again after a delay and concurrently from two goroutines and compared masked (volume timestamps, PS3 filler) with the first; the model is built with clock 0 and empty filler, so any other time/randomness dependence shows as a model mismatch",
+  "assumptions": ["directory enumeration order of an unchanged directory is stable (OS)"],
+ },
  "C14": {
   "props_modules": ["Ps3.Props.C14"],
   "streams": [{"name": "c14"}],
@@ -71,6 +97,14 @@ LEVEL_TEXT = {
         "Tie: differential against the harness's own stat walk.",
  "C17": "Theorems: (start,count) are decoded in wire order; the answer is exactly the concatenation of the 2048-byte user-data slices at 24+(start+k)*S, closing iff a sector is cut short (after the correct prefix), nothing for count 0; detection returns the first candidate whose sector 16 carries either signature, for each of the 7 sizes. "
         "Tie: synthesised images with an independent slice oracle.",
+ "C07": "Theorems: in every well-formed image each file's extent holds exactly the file's bytes followed by zeros to the sector end (any size), reading the extent returns them, files up to 4 GiB-1 get one record with the exact size, larger files get contiguous 0xFFFFF800-byte extents flagged multi-extent plus an unflagged remainder whose lengths sum to the size, portable names are preserved (upper-cased in the primary hierarchy). "
+        "Tie: byte-exact differential against the Lean image + independent ISO reader comparing both hierarchies with the source tree.",
+ "C08": "Theorems: size = volume space size x 2048, pad rule (granule 0x20), both-endian agreement for every value, record length byte = encoded size <= 255 because identifiers are cut to fit, no record straddles a sector (gap rule), directory extents are whole sectors, L/M path table entries agree, descriptor headers (1/2/255, CD001, version 1), PS3 sector 0/1 contents. "
+        "Tie: byte-exact model image + strict independent validator on the implementation's bytes.",
+ "C09": "Theorem (no bound on sizes): for every well-formed image, every offset and every length, read = slice of the one canonical byte string (metadata ++ padded files ++ pad area); corollaries: progress min(n, size-off), EOF after the end, any Read/Seek/ReadAt sequence observes the same as on the canonical string, sequential chunked reads concatenate, Seek arithmetic. "
+        "Tie: op sequences at structural boundaries against the library view; WF evaluated per explored image.",
+ "C18": "Theorems: layout (files, sizes, pad area, total) is a function of tree and mode only; a descriptor depends on the clock only through its two 17-byte timestamp fields; the system area depends on the random filler only through its 0x1C0-byte field (not at all without PS3 mode); everything else in the metadata is a function of the layout. "
+        "Tie: every image is built again later and concurrently and compared masked.",
  "C14": "Kernel-checked theorems over the Lean model of ParseIPRange/Contains: byte-wise comparison is numeric comparison, membership is exactly "
         "'between the bounds' for every 16-byte address, IPv4 and IPv4-mapped forms are treated alike, reversed / mixed-family / malformed bounds are rejected. "
         "The model (incl. Go's address and integer parsing) is tied to the code by a differential run over generated specifications and probe addresses, "
